@@ -746,6 +746,9 @@ class LibsModel:
             if k is not None and has_const(k) and recv.kw and cval(k) in recv.kw:
                 return recv.kw[cval(k)]
             el = recv.elem if recv.elem is not None else (join_all(recv.kw.values()) if recv.kw else AV())
+            if k is not None and has_const(k) and isinstance(cval(k), str) and recv.open_kw:
+                # one entry of a **kwargs mapping: depends on that entry, not on the whole mapping
+                d = frozenset((x + f'[{cval(k)}]') if (x.startswith('param:') and '#' not in x and '[' not in x and x in (recv.deps or ())) else x for x in d)
             return join(el, dflt).w(deps=d)
         if name == 'setdefault':
             k, v = args[0], (args[1] if len(args) > 1 else const(None))
